@@ -18,6 +18,7 @@ import (
 	"errors"
 	"fmt"
 	"os"
+	"runtime"
 	"sort"
 	"strconv"
 	"strings"
@@ -33,6 +34,13 @@ type verifC12Rec struct {
 	mu       sync.Mutex
 	calls    []string
 	failNext bool
+	// transport calls in progress; overlap = two at the same time
+	inWrite int
+	overlap bool
+	// gate: the next transport call blocks (inside the call) until released
+	gateArmed bool
+	entered   chan struct{}
+	gate      chan struct{}
 }
 
 func (r *verifC12Rec) ids(items []queue.Item) string {
@@ -49,7 +57,23 @@ func (r *verifC12Rec) ids(items []queue.Item) string {
 
 func (r *verifC12Rec) record(kind string, items []queue.Item) error {
 	r.mu.Lock()
+	r.inWrite++
+	if r.inWrite > 1 {
+		r.overlap = true
+	}
+	var gate chan struct{}
+	if r.gateArmed {
+		r.gateArmed = false
+		gate = r.gate
+		close(r.entered)
+	}
+	r.mu.Unlock()
+	if gate != nil {
+		<-gate // a slow transport write; the call counts as delivered when it completes
+	}
+	r.mu.Lock()
 	defer r.mu.Unlock()
+	r.inWrite--
 	if r.failNext {
 		r.failNext = false
 		r.calls = append(r.calls, kind+"F"+r.ids(items))
@@ -228,6 +252,66 @@ func (h *verifC12W) step(ws []string) (res string) {
 		_ = w.config.WriteFn(it)
 		synctest.Wait()
 		return h.tail()
+	case ws[0] == "gclose" && len(ws) >= 2:
+		// close(flush) arriving while the flusher is inside a slow transport write of an earlier
+		// message, with more messages queued behind it
+		var items []queue.Item
+		for _, x := range ws[1:] {
+			it, ok := verifC12WItem(x)
+			if !ok {
+				return "bad-op"
+			}
+			items = append(items, it)
+		}
+		rec := h.rec
+		rec.mu.Lock()
+		rec.gateArmed = true
+		rec.entered = make(chan struct{})
+		rec.gate = make(chan struct{})
+		entered, gate := rec.entered, rec.gate
+		rec.mu.Unlock()
+		d := w.enqueue(items[0])
+		synctest.Wait()
+		in := false
+		select {
+		case <-entered:
+			in = true
+		default:
+			rec.mu.Lock()
+			rec.gateArmed = false
+			rec.mu.Unlock()
+		}
+		for _, it := range items[1:] {
+			_ = w.enqueue(it)
+		}
+		closeDone := make(chan struct{})
+		go func() {
+			_ = w.close(true)
+			close(closeDone)
+		}()
+		if in {
+			// the closer has to wait for w.mu (a mutex block is not durable, so no virtual-clock
+			// wait here): give it every chance to run while the write is still in progress
+			for i := 0; i < 2000; i++ {
+				select {
+				case <-closeDone:
+					i = 2000
+				default:
+					runtime.Gosched()
+				}
+			}
+			close(gate)
+		}
+		<-closeDone
+		synctest.Wait()
+		rec.mu.Lock()
+		ov := 0
+		if rec.overlap {
+			ov = 1
+		}
+		rec.overlap = false
+		rec.mu.Unlock()
+		return "res=" + verifC12Res(d) + " overlap=" + strconv.Itoa(ov) + " " + h.tail()
 	case ws[0] == "failnext" && len(ws) == 1:
 		h.rec.mu.Lock()
 		h.rec.failNext = true
